@@ -222,8 +222,8 @@ class C04(runner.Check):
                 'TM.C04_no_later_stage')
     manifest = dict(
         level='proof', design='DESIGN.md 4/C04',
-        text="Lean 4 theorems C04_step / C04_history: for every flat configuration, every history and EVERY script without re-entrant commands (any callback, condition, on_exception handler or finalize callback may raise any exception at any invocation) the engine model's trace is accepted by the containment acceptor (segment cut after the first raising call, handlers iff registered, finalize always with its own exception swallowed, outcome raised/normal, state = source or destination by failing stage) and the machine is left idle. Tied to /repo by a crash sweep over every callback position of recorded traces on the eight synchronous classes: model equality, the same compiled acceptor on implementation traces, and a survivor-vs-fresh continuation differential (on another thread for locked classes).",
-        note="Trusted: Lean kernel, Model/Core.lean tied by trace equality, acceptor Model/Spec/C04.lean, harness recorders. Partial: hierarchical scope/stack restoration and the async classes are covered by the nested/async correspondence checks (C02/C03/C07), lock release on real threads by the thread probe here and C06; re-entrant commands combined with failures are covered by C05's theorem (queue discarded).",
+        text="Lean 4 theorems C04_step / C04_history: for every flat configuration, every history and EVERY script without re-entrant commands (any callback, condition, on_exception handler or finalize callback may raise any exception at any invocation) the engine model's trace is accepted by the containment acceptor (segment cut after the first raising call, handlers iff registered, finalize always with its own exception swallowed, outcome raised/normal, state = source or destination by failing stage) and the machine is left idle. Tied to /repo by a crash sweep over every callback position of recorded traces: on the eight synchronous classes (flat configurations) by model equality, the same compiled acceptor on implementation traces and a survivor-vs-fresh continuation differential (on another thread for locked classes); on nested/parallel configurations and the async classes (HierarchicalMachine, LockedHierarchicalMachine, AsyncMachine, HierarchicalAsyncMachine) by a containment oracle stating the clauses directly (nothing of a later stage, finalize exactly once, handlers iff registered, outcome, state frozen from the failing stage on, source state at or before the exit callbacks) plus the same survivor-vs-fresh differential; exception kinds include Exception, BaseException and builtin types (KeyError, IndexError, OSError, ...).",
+        note="Trusted: Lean kernel, Model/Core.lean tied by trace equality, acceptor Model/Spec/C04.lean, harness recorders. Partial: the hierarchical and async engines have no Lean model in this check (Python oracle + differential, sampling); lock release on real threads is decided by the thread probe here and by C06; re-entrant commands combined with failures are covered by C05's theorem (queue discarded).",
         technique="Lean 4 proof (structural simulation, all raising scripts) + crash-position sweep differential + verified trace monitor")
     rule = ('base = random flat configuration x history of 1-4 triggers (no failure); variants = every (quick: up to 8 '
             'sampled) callback position of the clean trace as the crash point x {Exception, BaseException} x {with, '
